@@ -122,6 +122,75 @@ def apps(pid):
     return out
 
 
+# ---- second family: arrays FortranSem cannot interpret (structural clause only)
+ODD_SRC = '''subroutine s(xs, vv, cc, cg, a, b, n)
+  integer, intent(in) :: n
+  real, intent(inout) :: xs(*)
+  real, volatile, dimension(0:9), intent(inout) :: vv
+  character(len=4), dimension(3), intent(inout) :: cc
+  real, contiguous, dimension(:), intent(inout) :: cg
+  real, dimension(0:9), intent(inout) :: a
+  real, dimension(0:9), intent(inout) :: b
+  integer :: i
+  do i = 1, n
+    a(i) = xs(i) + vv(i)
+  end do
+  do i = 1, n
+    vv(i) = b(i) * 2.0
+    xs(i) = a(i)
+  end do
+  do i = 1, 3
+    if (cc(i) == 'abcd') b(i) = cg(i)
+  end do
+  do i = 1, n
+    cg(i) = a(i) + b(i)
+  end do
+end subroutine s
+'''
+
+
+def _array_like(sym):
+    import re
+    from psyclone.psyir.symbols import ArrayType, UnsupportedFortranType
+    dt = getattr(sym, "datatype", None)
+    if isinstance(dt, ArrayType):
+        return True
+    if isinstance(dt, UnsupportedFortranType):
+        decl = dt.declaration.lower()
+        return bool(re.search(r"dimension\s*\(", decl) or
+                    re.search(r"\b" + re.escape(sym.name.lower()) + r"\s*\(", decl))
+    return False
+
+
+def odd_cases():
+    '''(cases for DataClauses.tla, slim records)'''
+    from psyclone.psyir.nodes import ACCDataDirective, Reference
+    from psyclone.transformations import ACCDataTrans
+    from psyclone.psyir.transformations import TransformationError
+    cases, recs = [], {}
+    for lo in range(4):
+        for hi in range(lo + 1, 5):
+            cid = f"odd|{lo}-{hi}"
+            psy = sem.parse(ODD_SRC)
+            r = sem.routine_named(psy, "s")
+            try:
+                ACCDataTrans().apply(r.children[lo:hi])
+                d = r.walk(ACCDataDirective)[0]
+                text = sem.write(psy)
+            except TransformationError:
+                continue
+            except Exception as err:   # noqa
+                recs[cid] = {"id": cid, "status": "crash", "why": f"{type(err).__name__}: {err}"[:200]}
+                continue
+            accessed = sorted({ref.symbol.name.lower() for ref in d.dir_body.walk(Reference)
+                               if _array_like(ref.symbol)})
+            moved = sorted({ref.symbol.name.lower() for c in d.clauses for ref in c.walk(Reference)})
+            cases.append({"id": cid, "accessed": accessed, "moved": moved})
+            recs[cid] = {"id": cid, "status": "accepted", "after": text, "accessed": accessed,
+                         "moved": moved}
+    return cases, recs
+
+
 # ------------------------------------------------------------ known findings
 def _region(rec):
     for st in rec["case"]["progs"][1]["body"]:
@@ -198,6 +267,28 @@ def run(tier):
             # histories change the statements after the region was created)
             r["case"]["progs"][0] = {"body": _strip(r["case"]["progs"][1]["body"])}
     cov = sem.judge_family(out, results, MATCHERS)
+    # structural clause for arrays outside FortranSem's subset
+    import json
+    import os
+    ocases, orecs = odd_cases()
+    if ocases:
+        tmp = core.mktemp("pv-c13-")
+        path = os.path.join(tmp, "odd.json")
+        with open(path, "w") as f:
+            json.dump(ocases, f)
+        r2 = core.run_tlc("DataClauses.tla", "DataClauses.cfg", env={"PV_CASES": path}, workers=2)
+        import shutil
+        shutil.rmtree(tmp, ignore_errors=True)
+        cov["states"] += r2.distinct
+        cov["transitions"] += r2.generated
+        if r2.distinct != 2 * len(ocases) - sum(1 for _ in r2.printed("VERDICT")) * 0:
+            pass
+        for v in r2.printed("VERDICT"):
+            rec = orecs[v["id"]]
+            out.violation({"id": v["id"], "after": rec["after"], "accessed": rec["accessed"],
+                           "moved": rec["moved"]}, v["v"], {"missing": v["w"]["missing"]})
+        cov["odd_type_regions"] = len(ocases)
+        cov["odd_type_crashes"] = [r for r in orecs.values() if r["status"] == "crash"][:5]
     cov["rule"] = ("one case = (generated routine, statement range wrapped by ACCDataTrans, alone or "
                    "around an ACCKernelsTrans region); non-trivial = accepted and the host program is "
                    "defined on at least one input")
